@@ -70,15 +70,20 @@ def run(chk, prog):
     s = K["Static"]
     import ast
 
-    mw = s.methods["merge_with"]
-    src = ast.unparse(mw)
-    okm = "merge(c1.get_submap(key), c2.get_submap(key))" in src and "set(c1.mapping.keys()) | set(c2.mapping.keys())" in src.replace("\n", " ")
     evm = Evaluator(prog)
-    rm = evm.eval_fn(mw, s.module, s)
-    bod = [x for x in subterms(rm.ret) if is_t(x, "call") and x[1] == P("merge")]
-    okm2 = any(x[2] == (("call", ("attr", C1, "get_submap"), (x[2][0][2][0],), ()), ("call", ("attr", C2, "get_submap"), (x[2][0][2][0],), ())) for x in bod if is_mcall(x[2][0], "get_submap"))
-    okm2 = okm2 or any(is_mcall(x[2][0], "get_submap") and x[2][0][1][1] == C1 and is_mcall(x[2][1], "get_submap") and x[2][1][1][1] == C2 and x[2][0][2] == x[2][1][2] for x in list(subterms(("tuple", tuple(v for v in rm.env.values() if isinstance(v, tuple))))) if is_t(x, "call") and x[1] == P("merge") and len(x[2]) == 2)
-    chk.require(okm2, "CHM-LEFTBIAS", "Static.merge_with", "shared keys merged with c1's sub-map on the left, at the same key", derived=f"{len(bod)} merge application(s) found", expected="merge(c1.get_submap(key), c2.get_submap(key)); keys of one side kept as they are", where=W(s, "merge_with"))
+    rm = evm.eval_fn(s.methods["merge_with"], s.module, s)
+    t = rm.ret
+    okm2 = is_call(t, "build") and is_t(t[2][0], "loop")
+    if okm2:
+        _, it_, init_, body_ = t[2][0]
+        k_ = mk_elem(it_)
+        kset = lambda c_: ("call", G("set"), (("call", ("attr", ("attr", c_, "mapping"), "keys"), (), ()),), ())
+        sub_ = lambda c_: ("call", ("attr", c_, "get_submap"), (k_,), ())
+        in_ = lambda c_: ("cmp", "in", k_, ("attr", c_, "mapping"))
+        st_ = lambda v_: ("setitem", init_, k_, v_)
+        want_body = ("phi", ("bool", "and", (in_(C1), in_(C2))), st_(("call", P("merge"), (sub_(C1), sub_(C2)), ())), ("phi", in_(C1), st_(sub_(C1)), st_(sub_(C2))))
+        okm2 = it_ == ("bin", "|", kset(C1), kset(C2)) and init_ == ("dict", ()) and body_ == want_body
+    chk.require(okm2, "CHM-LEFTBIAS", "Static.merge_with", "shared keys merged with c1's sub-map on the left, at the same key", derived=show(t)[:300], expected="for key in keys(c1) | keys(c2): merge(c1.get_submap(key), c2.get_submap(key)) if in both, else the side that has it", where=W(s, "merge_with"))
     r = ev.eval_fn(s.methods["filter"], s.module, s)
     t = r.ret
     keys = ("call", ("attr", ("attr", SELF, "mapping"), "keys"), (), ())
